@@ -23,7 +23,8 @@ RULE = ("one run = one bring-up of the real manager process for one configuratio
         "version triples (grid around 5.4.1 + random) x retries {0,1,2,3,255, exchange fails} x echo "
         "{ok, altered} x unlock {accepted, refused} x new PIN {accepted, refused, error} x (SGX, a quarter "
         "of the runs) another version while locked than after the unlock x mode after "
-        "EXIT {signer, bootloader, ui-heartbeat, gone longer than the wait}; enumerated: the full "
+        "EXIT {signer, bootloader, ui-heartbeat, gone longer than the wait} x (seeded, one run in five) "
+        "one link fault or error status at one of the first 14 exchanges; enumerated: the full "
         "product of the enum dimensions with versions at 5.4.1; seeded: everything incl. version grid; "
         "non-trivial = at least one APDU was exchanged; distinct = the configuration tuple")
 TIERS = {"quick": {"runs": 60000, "wall": 240}, "thorough": {"runs": 1500000, "wall": 3000}}
@@ -140,10 +141,26 @@ def run_one(ch, cfg):
                                 "silence": ch.pick(["timeout", "read_err"], "exit-silence")}
     # the device may also be absent (unplugged / enclave host down) when the manager starts
     c["present"] = ch.draw(12, "device-absent") != 1
+    # seeded only: one exchange of the bring-up fails on the link (answer lost, read / write error,
+    # connection closed) or is answered with an error status - the manager may then stop, but what it
+    # could not find out it must not assume
+    lfault = None
+    if ch.draw(5, "link-fault") == 1:
+        kinds = ["timeout_after", "read_err_after", "timeout_before", "write_err", "read_err_before"] \
+            if plat == "ledger" else ["send_err", "recv_eof", "recv_eof_after"]
+        kinds = kinds + [("sw", 0x6E00), ("sw", 0x6A99)]
+        lfault = {"at": ch.draw(14, "link-fault.exchange"), "kind": ch.pick(kinds, "link-fault.kind")}
     w = ProcWorld(ch, platform=plat, device_cfg=dcfg)
     dev = w.device
     if not c["present"]:
         dev.plugged = False
+    if lfault is not None:
+        def lfn(i, apdu):
+            if i == lfault["at"] and not w.serving():        # a fault of the bring-up, not of the probe
+                lfault["fired"] = "%02x" % apdu[1] if len(apdu) > 1 else "?"
+                return lfault["kind"]
+            return None
+        w.link.fault_fn = lfn
     if c["pin_file"] in ("valid", "forced"):
         w.fs.put(PIN_PATH, devpin + (b"\n" if ch.draw(2, "pin.newline") else b""))
     elif c["pin_file"] == "invalid":
@@ -184,6 +201,10 @@ def run_one(ch, cfg):
     expect = REF.serves(c)
     desc = "config %s; unlock APDUs %d, PIN bytes sent %d, served %s, manager %s" % (
         _cs(c), dev.unlocks, dev.pin_sends, served, w.outcomes.get("mgr0", "running"))
+    faulted = lfault is not None and "fired" in lfault
+    if faulted:
+        desc += "; link fault %s at exchange %d (instruction %s)" % (lfault["kind"], lfault["at"],
+                                                                    lfault["fired"])
     # ---- rule A: unlock at most once and only when allowed
     if dev.unlocks > 1:
         viol.append(("unlock/more-than-once", desc))
@@ -192,8 +213,11 @@ def run_one(ch, cfg):
     if plat == "ledger" and dev.pin_sends > 0 and not allowed:
         viol.append(("unlock/pin-sent-not-allowed:%s" % _why_not(c), desc))
     # ---- rule B: serves exactly when the reference says so
-    if expect is True and not served:
+    if expect is True and not served and not faulted:
         viol.append(("serve/should-serve", desc))
+    if expect is True and faulted and not served and (w.manager_alive() or w.serving()):
+        # a bring-up that met a fault may give up, but then the process ends
+        viol.append(("serve/neither-serving-nor-stopped", desc + " outcome=%s" % outcome))
     if expect is False and (served or accepted):
         viol.append(("serve/unsafe-state:%s" % _why_not_serve(c), desc))
     # ---- rule C: in every non-serving case the process ends without accepting a connection
@@ -202,7 +226,7 @@ def run_one(ch, cfg):
     leaked = w.finish()
     st = tuple(sorted((k2, str(v)) for k2, v in c.items()))
     return {"violations": viol, "digest": w.log.digest(), "state": st,
-            "nontrivial": len(dev.apdus) > 0, "faults": {},
+            "nontrivial": len(dev.apdus) > 0, "faults": dict(w.link.stats.faults),
             "probes": {"served": int(served), "unlocked": int(dev.unlocks > 0),
                        "expect.%s" % expect: 1, "platform." + plat: 1,
                        "pin_changed": int(len(dev.newpin_acks) > 0)},
